@@ -91,7 +91,7 @@ func checkC11(r *Report, known []Finding) {
 		np, nh = 15000, 12
 	}
 	root := NewRNG(r.Seed)
-	type dis struct{ p, rel, detail, strat string }
+	type dis struct{ p, rel, detail, strat, hay string }
 	var mu sync.Mutex
 	var all []dis
 	var wg sync.WaitGroup
@@ -211,7 +211,7 @@ func checkC11(r *Report, known []Finding) {
 						}
 					}
 					if strings.HasPrefix(res, "PANIC") || res == "TIMEOUT" {
-						local = append(local, dis{p, "no-panic/terminates", res + fmt.Sprintf(" len=%d", len(h)), strat})
+						local = append(local, dis{p, "no-panic/terminates", res + fmt.Sprintf(" len=%d", len(h)), strat, hayKind(h)})
 						continue
 					}
 					body := res[:strings.IndexByte(res, '\x03')]
@@ -224,7 +224,7 @@ func checkC11(r *Report, known []Finding) {
 						if len(hh) > 60 {
 							hh = hh[:60]
 						}
-						local = append(local, dis{p, f[0], fmt.Sprintf("%s on %q (len %d)", f[1], hh, len(h)), strat})
+						local = append(local, dis{p, f[0], fmt.Sprintf("%s on %q (len %d)", f[1], hh, len(h)), strat, hayKind(h)})
 					}
 				}
 				mu.Lock()
@@ -243,7 +243,7 @@ func checkC11(r *Report, known []Finding) {
 	seen := map[string]bool{}
 	for _, d := range all {
 		t.Disagreements++
-		attrs := map[string]string{"relation": d.rel, "strategy": d.strat, "kind": "views-disagree"}
+		attrs := map[string]string{"relation": d.rel, "strategy": d.strat, "kind": "views-disagree", "hay": d.hay}
 		if ast, err := syntax.Parse(d.p, syntax.Perl); err == nil {
 			for _, tg := range featuresOf(ast).Tags() {
 				attrs[tg] = "true"
@@ -414,6 +414,9 @@ func checkC12(r *Report, known []Finding) {
 		r.Violate(fmt.Sprintf("%s of %q on %q: default configuration [%s] gives %.120s, configuration %s gives %.120s", d.api, d.p, d.h, d.strat, d.def, d.cfg, d.got),
 			map[string]any{"pattern": d.p, "config": d.cfg, "api": d.api, "haystack_hex": hexOf(d.h), "default": d.def, "configured": d.got, "strategy": d.strat, "attrs": attrs,
 				"coregex": d.got, "regexp": d.def, "learn_signature": func() map[string]string {
+					if attrs["pf"] == "ill-formed-haystack" {
+						return learnSignature(attrs)
+					}
 					if strings.HasPrefix(d.cfg, "MaxLiterals=") || strings.HasPrefix(d.cfg, "DeterminizationLimit=") || strings.HasPrefix(d.cfg, "MaxDFAStates=") || strings.HasPrefix(d.cfg, "MinLiteralLen=") {
 						return map[string]string{"config": d.cfg}
 					}
@@ -508,4 +511,15 @@ func checkC12(r *Report, known []Finding) {
 	}
 	r.Sample(map[string]any{"configurations": names})
 	replayKnownExamples(r, known, "C12")
+}
+
+
+func hayKind(h []byte) string {
+	if !utf8.Valid(h) {
+		return "ill-formed"
+	}
+	if len(h) != utf8.RuneCount(h) {
+		return "multibyte"
+	}
+	return "ascii"
 }
